@@ -38,8 +38,23 @@ unsafe extern "C" {
     fn redirectionio_request_drop(r: *mut Request);
     fn redirectionio_api_buffer_drop(b: Buffer);
     fn redirectionio_api_get_rule_api_version() -> *const c_char;
+    fn redirectionio_log_init_with_callback(cb: extern "C" fn(*const c_char, *const std::os::raw::c_void, i16), data: *const std::os::raw::c_void);
     fn redirectionio_api_create_log_in_json(r: *mut Request, code: u16, hm: *const HM, a: *mut Action, proxy: *const c_char, time: u64, ip: *const c_char) -> *const c_char;
 }
+
+/// The log callback of a C host: it OWNS the message it receives (callback_log.rs hands it over with CString::into_raw)
+/// and releases it, as the proxy modules do with free().
+static LOG_LINES: std::sync::atomic::AtomicUsize = std::sync::atomic::AtomicUsize::new(0);
+static LOG_DATA: u8 = 0;
+extern "C" fn log_cb(msg: *const c_char, _data: *const std::os::raw::c_void, _level: i16) {
+    LOG_LINES.fetch_add(1, std::sync::atomic::Ordering::Relaxed);
+    if !msg.is_null() { drop(unsafe { CString::from_raw(msg as *mut c_char) }); }
+}
+fn install_logger() {
+    static ONCE: std::sync::Once = std::sync::Once::new();
+    ONCE.call_once(|| unsafe { redirectionio_log_init_with_callback(log_cb, &LOG_DATA as *const u8 as *const std::os::raw::c_void) });
+}
+const NULL_MARK: &str = "\u{1}<null>";
 
 fn build_hm(headers: &[(String, String)]) -> *const HM {
     // as a C client would: one node per header, the list in the given order
@@ -54,7 +69,8 @@ fn read_hm(mut hm: *const HM) -> Vec<(String, String)> {
     let mut out = Vec::new();
     while !hm.is_null() {
         let n = unsafe { &*hm };
-        out.push((unsafe { CStr::from_ptr(n.name) }.to_string_lossy().to_string(), unsafe { CStr::from_ptr(n.value) }.to_string_lossy().to_string()));
+        let rd = |p: *const c_char| if p.is_null() { NULL_MARK.to_string() } else { unsafe { CStr::from_ptr(p) }.to_string_lossy().to_string() };
+        out.push((rd(n.name), rd(n.value)));
         hm = n.next;
     }
     out
@@ -94,6 +110,79 @@ struct World {
 fn buf_ptr(b: &Buffer) -> usize { let raw: &(usize, usize) = unsafe { &*(b as *const Buffer as *const (usize, usize)) }; raw.0 }
 
 fn pattern(len: usize, salt: u64) -> Vec<u8> { (0..len).map(|i| b"<html><body><p>x</p></body></html>\n"[(i + salt as usize) % 35]).collect() }
+
+// ---------------------------------------------------------------------------------------------- hostile header lists
+/// A header list as a C client may hand it over: names / values that are NULL or not UTF-8.  The contract of
+/// header_map_to_http_headers is to skip such entries; every entry point taking a list must return (watchdog: a call
+/// that does not return within 5 s is reported, the harness stops) and must see exactly the well-formed entries.
+fn build_hm_raw(headers: &[(Option<Vec<u8>>, Option<Vec<u8>>)]) -> *const HM {
+    let mut head: *mut HM = std::ptr::null_mut();
+    let raw = |b: &Option<Vec<u8>>| -> *const c_char { match b { None => std::ptr::null(), Some(v) => unsafe { CString::from_vec_unchecked(v.clone()) }.into_raw() as *const c_char } };
+    for (n, v) in headers.iter().rev() {
+        let node = Box::new(HM { name: raw(n), value: raw(v), next: head });
+        head = Box::into_raw(node);
+    }
+    head
+}
+fn hostile_entry(v: &Value) -> Option<Vec<u8>> {
+    if v.is_null() { return None; }
+    if let Some(s) = v.as_str() { return Some(s.as_bytes().to_vec()); }
+    Some(v.as_array().map(|a| a.iter().map(|x| x.as_u64().unwrap_or(0) as u8).filter(|b| *b != 0).collect()).unwrap_or_default())
+}
+fn run_hostile(o: &Value) -> Result<Vec<String>, String> {
+    let list: Vec<(Option<Vec<u8>>, Option<Vec<u8>>)> = o["headers"].as_array().unwrap().iter().map(|h| (hostile_entry(&h[0]), hostile_entry(&h[1]))).collect();
+    let expected: Vec<(String, String)> = list.iter().filter_map(|(n, v)| match (n, v) {
+        (Some(n), Some(v)) => match (std::str::from_utf8(n), std::str::from_utf8(v)) { (Ok(n), Ok(v)) => Some((n.to_string(), v.to_string())), _ => None },
+        _ => None }).collect();
+    let which = o["entry"].as_str().unwrap_or("request").to_string();
+    let rules = o["rules"].clone();
+    let (tx, rx) = std::sync::mpsc::channel();
+    let list2 = list.clone();
+    std::thread::spawn(move || {
+        let r = catch(move || {
+            let mut notes: Vec<String> = Vec::new();
+            let hm = build_hm_raw(&list2);
+            match which.as_str() {
+                "request" => {
+                    let uri = CString::new("/x").unwrap();
+                    let r = unsafe { redirectionio_request_create(uri.as_ptr(), std::ptr::null(), std::ptr::null(), std::ptr::null(), hm) } as *mut Request;
+                    if r.is_null() { notes.push("request_create returned null".into()); } else {
+                        let got: Vec<(String, String)> = unsafe { &*r }.headers.iter().map(|h| (h.name.clone(), h.value.clone())).collect();
+                        if got != expected { notes.push(format!("request headers {:?} instead of the well-formed entries {:?}", got, expected)); }
+                        unsafe { redirectionio_request_drop(r) };
+                    }
+                }
+                _ => {
+                    let native = native_action(&rules);
+                    let text = CString::new(serde_json::to_string(&native).unwrap()).unwrap();
+                    let a = unsafe { redirectionio_action_json_deserialize(text.as_ptr() as *mut c_char) } as *mut Action;
+                    if a.is_null() { notes.push("action deserialize returned null".into()); } else {
+                        if which == "filter_headers" {
+                            let out = unsafe { redirectionio_action_header_filter_filter(a, hm, 200, false) };
+                            let got = read_hm(out);
+                            let mut nat: Action = serde_json::from_str(&serde_json::to_string(&native).unwrap()).unwrap();
+                            let want: Vec<(String, String)> = nat.filter_headers(expected.iter().map(|(n, v)| Header { name: n.clone(), value: v.clone() }).collect(), 200, false, None).into_iter().map(|h| { let c_view = |s: String| if s.contains('\0') { NULL_MARK.to_string() } else { s }; (c_view(h.name), c_view(h.value)) }).collect();
+                            let (mut g, mut w) = (got.clone(), want.clone()); g.sort(); w.sort();
+                            if g != w { notes.push(format!("filtered headers {:?} instead of {:?}", got, want)); }
+                            free_hm(out);
+                        } else {
+                            let f = unsafe { redirectionio_action_body_filter_create(a, 200, hm) } as *mut FilterBodyAction;
+                            if !f.is_null() { unsafe { redirectionio_action_body_filter_drop(f) }; }
+                        }
+                        unsafe { redirectionio_action_drop(a) };
+                    }
+                }
+            }
+            free_hm(hm);
+            notes
+        });
+        let _ = tx.send(r);
+    });
+    match rx.recv_timeout(std::time::Duration::from_secs(5)) {
+        Ok(r) => r,
+        Err(_) => Err("TIMEOUT: an extern \"C\" entry point taking a header list did not return within 5 s (NULL or non-UTF-8 name / value in the list)".to_string()),
+    }
+}
 
 fn run_program(ops: &[Value]) -> (bool, Vec<String>) {
     let mut w = World { bufs: BTreeMap::new(), actions: BTreeMap::new(), filters: BTreeMap::new(), requests: BTreeMap::new(), same: true, notes: Vec::new() };
@@ -145,7 +234,8 @@ fn run_program(ops: &[Value]) -> (bool, Vec<String>) {
                 let hm = build_hm(&headers);
                 let out = unsafe { redirectionio_action_header_filter_filter(*p, hm, code, o["add_ids"].as_bool().unwrap_or(false)) };
                 let mut got = read_hm(out);
-                let mut want: Vec<(String, String)> = twin.filter_headers(headers.iter().map(|(n, v)| Header { name: n.clone(), value: v.clone() }).collect(), code, o["add_ids"].as_bool().unwrap_or(false), None).into_iter().map(|h| (h.name, h.value)).collect();
+                let c_view = |s: String| if s.contains('\0') { NULL_MARK.to_string() } else { s };
+                let mut want: Vec<(String, String)> = twin.filter_headers(headers.iter().map(|(n, v)| Header { name: n.clone(), value: v.clone() }).collect(), code, o["add_ids"].as_bool().unwrap_or(false), None).into_iter().map(|h| (c_view(h.name), c_view(h.value))).collect();
                 got.sort(); want.sort();
                 if got != want { w.same = false; w.notes.push(format!("headers {:?} vs {:?}", got, want)); }
                 free_hm(out);
@@ -226,6 +316,17 @@ fn run_program(ops: &[Value]) -> (bool, Vec<String>) {
                 w.requests.insert(id, p);
             }
             "request_drop" => { if let Some(p) = w.requests.remove(&id) { unsafe { redirectionio_request_drop(p) }; } }
+            "bad_json" => {
+                // malformed documents: null results, and an error line through the host's log callback (which owns and
+                // releases the message)
+                let before = LOG_LINES.load(std::sync::atomic::Ordering::Relaxed);
+                let c = CString::new(o["text"].as_str().unwrap_or("{")).unwrap();
+                unsafe {
+                    if !redirectionio_action_json_deserialize(c.as_ptr() as *mut c_char).is_null() { w.same = false; w.notes.push("malformed action accepted".into()); }
+                    if !redirectionio_request_json_deserialize(c.as_ptr() as *mut c_char).is_null() { w.same = false; w.notes.push("malformed request accepted".into()); }
+                }
+                if LOG_LINES.load(std::sync::atomic::Ordering::Relaxed) < before + 2 { w.same = false; w.notes.push("no error line reached the log callback".into()); }
+            }
             "nulls" => {
                 unsafe {
                     if !redirectionio_action_json_deserialize(std::ptr::null_mut()).is_null() { w.same = false; }
@@ -267,6 +368,7 @@ const RULES: &[&str] = &[
     r#"{"id":"b","rank":2,"source":{"path":"/x"},"body_filters":[{"action":"append_text","content":"[tail]"}]}"#,
     r#"{"id":"c","rank":0,"source":{"path":"/x"},"body_filters":[{"action":"append_child","value":"<i>V</i>","element_tree":["html","body"],"css_selector":null}],"header_filters":[{"action":"override","header":"Location","value":"/z"}]}"#,
     r#"{"id":"d","rank":3,"source":{"path":"/x","response_status_codes":[404]},"status_code":410,"log_override":false}"#,
+    r#"{"id":"e","rank":4,"source":{"path":"/x"},"header_filters":[{"action":"add","header":"X-Nul","value":"a\u0000b"},{"action":"add","header":"X-B","value":"2"}]}"#,
 ];
 
 pub fn gen_program(rng: &mut Rng) -> Value {
@@ -292,7 +394,7 @@ pub fn gen_program(rng: &mut Rng) -> Value {
                                 "host": if rng.chance(1, 2) { json!("example.org") } else { Value::Null }, "headers": if rng.chance(1, 2) { json!([["X-A", "1"], ["x-a", ""], ["Accept", "é"]]) } else { json!([]) }}));
                 ops.push(json!({"op": "request_drop", "id": r}));
             }
-            3 => ops.push(json!({"op": "nulls"})),
+            3 => { if rng.chance(1, 2) { ops.push(json!({"op": "nulls"})); } else { ops.push(json!({"op": "bad_json", "text": *rng.pick(&["{", "nope", "{\"rule_ids\": 3}", ""])})); } }
             _ => {
                 let a = fresh();
                 let k = 1 + rng.below(RULES.len());
@@ -326,10 +428,21 @@ pub fn gen_program(rng: &mut Rng) -> Value {
     json!({"ops": ops})
 }
 
+fn gen_hostile(rng: &mut Rng) -> Value {
+    let n = 1 + rng.below(4);
+    let entry = |rng: &mut Rng| -> Value { match rng.below(6) { 0 => Value::Null, 1 => json!([0xe9u8]), 2 => json!([0x58u8, 0xffu8, 0x41u8]), 3 => json!(""), _ => json!(*rng.pick(&["X-A", "Content-Type", "text/html", "1", "caf\u{e9}"])) } };
+    let headers: Vec<Value> = (0..n).map(|_| json!([entry(rng), entry(rng)])).collect();
+    let rules: Vec<Value> = vec![serde_json::from_str::<Value>(RULES[rng.below(RULES.len())]).unwrap()];
+    json!({"ops": [{"op": "hostile_headers", "entry": *rng.pick(&["request", "filter_headers", "body_filter_create"]), "headers": headers, "rules": rules}]})
+}
+
 pub fn generate(seed: u64, thorough: bool) -> Vec<Value> {
     let mut rng = Rng::new(seed ^ 0x18);
     let n = if thorough { 4000 } else { 400 };
-    (0..n).map(|_| gen_program(&mut rng)).collect()
+    let mut v: Vec<Value> = (0..n).map(|_| gen_program(&mut rng)).collect();
+    let mut rng2 = Rng::new(seed ^ 0x1818);
+    for _ in 0..(if thorough { 400 } else { 60 }) { v.push(gen_hostile(&mut rng2)); }
+    v
 }
 
 /// the abstract client program for RIO.Heap (sizes of boxed objects are those of the Rust types; the capacity of a Vec
@@ -378,7 +491,21 @@ fn abstract_program(ops: &[Value], out_lens: &BTreeMap<u64, usize>, null_filters
 }
 
 pub fn run_case(id: usize, input: &Value) {
+    install_logger();
     let ops: Vec<Value> = input["ops"].as_array().unwrap().clone();
+    if ops.len() == 1 && ops[0]["op"] == "hostile_headers" {
+        match run_hostile(&ops[0]) {
+            Err(e) => {
+                emit(id, "", input.clone(), &["panic".to_string(), "op:hostile_headers".to_string()], false, json!({"panic": e}));
+                if e.starts_with("TIMEOUT") { use std::io::Write; let _ = std::io::stdout().flush(); std::process::exit(3); }
+            }
+            Ok(notes) => {
+                let coq = format!("{{| k_prog := []; o_mismatch := 0; o_double_free := 0; o_leak := 0; o_same := {} |}}", cq_bool(notes.is_empty()));
+                emit(id, &coq, input.clone(), &["op:hostile_headers".to_string(), format!("entry:{}", ops[0]["entry"].as_str().unwrap_or(""))], true, json!({"notes": notes}));
+            }
+        }
+        return;
+    }
     // dry run (not recorded): warms every lazily initialised global, and tells which filters are null / how long the outputs are
     let ops0 = ops.clone();
     let pre = catch(move || {
